@@ -30,6 +30,17 @@ pub trait SimFs: Send + Sync {
     fn seek(&self, handle: u64, pos: SeekFrom) -> io::Result<u64>;
     fn set_len(&self, handle: u64, len: u64) -> io::Result<()>;
     fn close(&self, handle: u64);
+    /// Path operations used by rename/backup/copy. A simulated file system that does not
+    /// implement them reports `Unsupported` (the operation fails, nothing is changed).
+    fn rename(&self, _from: &str, _to: &str) -> io::Result<()> {
+        Err(io::Error::from(io::ErrorKind::Unsupported))
+    }
+    fn remove_file(&self, _path: &str) -> io::Result<()> {
+        Err(io::Error::from(io::ErrorKind::Unsupported))
+    }
+    fn copy(&self, _from: &str, _to: &str) -> io::Result<u64> {
+        Err(io::Error::from(io::ErrorKind::Unsupported))
+    }
 }
 
 thread_local! {
@@ -55,6 +66,30 @@ fn fs_for(path: &str) -> Option<Arc<dyn SimFs>> {
         None => GLOBAL_FS.read().unwrap().clone(),
     };
     fs.filter(|fs| fs.owns(path))
+}
+
+/// `std::fs::rename` through the seam.
+pub fn rename<P: AsRef<str>, Q: AsRef<str>>(from: P, to: Q) -> io::Result<()> {
+    match fs_for(from.as_ref()) {
+        Some(fs) => fs.rename(from.as_ref(), to.as_ref()),
+        None => std::fs::rename(from.as_ref(), to.as_ref()),
+    }
+}
+
+/// `std::fs::remove_file` through the seam.
+pub fn remove_file<P: AsRef<str>>(path: P) -> io::Result<()> {
+    match fs_for(path.as_ref()) {
+        Some(fs) => fs.remove_file(path.as_ref()),
+        None => std::fs::remove_file(path.as_ref()),
+    }
+}
+
+/// `std::fs::copy` through the seam.
+pub fn copy<P: AsRef<str>, Q: AsRef<str>>(from: P, to: Q) -> io::Result<u64> {
+    match fs_for(from.as_ref()) {
+        Some(fs) => fs.copy(from.as_ref(), to.as_ref()),
+        None => std::fs::copy(from.as_ref(), to.as_ref()),
+    }
 }
 
 pub enum File {
